@@ -194,12 +194,14 @@ for _ in range(n(600)):
 # ------------------------------------------------------------------ statistics: all permutations of lists of length <= 5
 BASES = [[], [5], [1, 2], [2, 2], [2, -3], [1, 2, 3], [1, 1, 2], [7, 7, 7], [3, 1, 2, 2], [1, 2, 3, 4], [-1, -1, 4, 4],
          [2**70, -2**70, 3, 3], [1, 2, 3, 4, 5], [1, 1, 2, 2, 3], [-1, 2**64, 2**64 + 1, 0, 7], [0, 0, 0, 1, -1],
-         [2**80, 2**80 + 2, 5, -2**80, 1], [10, 20, 30, 41], [2**64 + 1, 2**64 + 2]]
+         [2**80, 2**80 + 2, 5, -2**80, 1], [10, 20, 30, 41], [2**64 + 1, 2**64 + 2],
+         # ints next to decimals whose text order differs from the numeric order
+         [2.5, 10], [-1.5, -1], [9.5, 10, 1], [1, 2.5, 10, 0.5], [100, 20.5, 3], [10, 9.5, 100.25, 2], [-10, -9.5, -100.5]]
 for _ in range(n(12)):
     BASES.append([rnd.randint(-9, 9) for _ in range(rnd.randint(3, 5))])
 for base in BASES:
     for p in sorted(set(itertools.permutations(base))):
-        a = L(*[I(x) for x in p])
+        a = L(*[(I(x) if isinstance(x, int) else D(x)) for x in p])
         for f in ['mean', 'median', 'median_low', 'median_high', 'min', 'max']:
             add(f, f"(lib {f} {sx(a)})", f"{f}(a)", a=a)
 
